@@ -71,7 +71,7 @@ def check_color_parser(ctx, rule="FIN-color"):
   return n
 
 
-TEXT_PROBES = ["plain", "é", "Ω Å", "ﬁ", "aَّ", " two  spaces ", "", "ẛ̣"]
+TEXT_PROBES = ["plain", "e\u0301", "\u2126 \u212b", "\ufb01", "a\u0651\u064e", " two  spaces ", "", "\u1e9b\u0323", "col1\tcol2", "\U0001F3B5 \U00020000", "a\u200bb\ufeff", "line\u2028sep", "\x0b\x0c\x1f"]
 
 
 def check_text_identity(ctx, rule="ID-text"):
@@ -156,6 +156,16 @@ def check_validators_strict(ctx, rule="VAL-strict"):
         continue
       tbl = MiniEval(ix)._enum_table(eci, mi)
       probes = [m.value for m in tbl.values() if isinstance(m.value, (str, int)) and not isinstance(m.value, bool)]
+      # ... and members of *other* enumerations of the module whose value equals one of this enumeration's (SpecialValues.none ~ DisplayType.none)
+      own_vals = {m.value for m in tbl.values() if isinstance(m.value, str)}
+      for oc in ix.classes.values():
+        if oc.module is eci.module and oc is not eci and ix.is_enum(oc):
+          try:
+            for om in MiniEval(ix)._enum_table(oc, mi).values():
+              if isinstance(om.value, str) and om.value in own_vals:
+                probes.append(om)
+          except NotConst:
+            pass
       valid = [init]
     elif isinstance(init, bool):
       probes = [0, 1]
@@ -531,4 +541,39 @@ def check_cue_tokens(ctx, rule="FIN-tokens"):
               f"interpreted on {text!a}, the tokenizer yields {ascii(got)} instead of {ascii(want)} (S text, B start tag + classes + annotation, E end tag, T timestamp): "
               "text the writer escaped, or a tag it wrote, is read back differently")
     n += 1
+  return n
+
+
+
+def check_timing_setters(ctx, rule="ID-time"):
+  """ContentElement.set_begin / set_end store the offset they are given and get_begin / get_end return it: exactly (a rational with
+  a large denominator is not rounded), with its value for 0 and None kept apart."""
+  ix = ctx.ix
+  cls = ix.cls("ttconv.model:ContentElement")
+  probes = [Fraction(25000001, 10000000), Fraction(0), None, Fraction(1, 3), Fraction(5000000004, 1000000000), Fraction(7, 1), Fraction(123456789, 1001)]
+  n = 0
+  for setter, getter in (("set_begin", "get_begin"), ("set_end", "get_end")):
+    fs, fg = cls.methods.get(setter), cls.methods.get(getter)
+    if fs is None or fg is None:
+      raise_anchor(ix, f"ttconv.model:ContentElement.{setter}")
+    ctx.unit(fs.module)
+    for v in probes:
+      key = f"{fs.qualname}|{getter}() returns the {v!r} given to {setter}()"
+      rec = {"__record__": "ContentElement", "__class__": cls}
+      try:
+        me = MiniEval(ix)
+        me.call(fs, [rec, v])
+        got = me.call(fg, [rec])
+      except Raised:
+        ctx.bad(rule, key, ctx.where(fs.module, fs.node), f"interpreted, {setter}({v!r}) raises")
+        n += 1
+        continue
+      except NotConst as ex:
+        ctx.undecide(rule, f"{fs.qualname} on {v!r}: not in the interpreted subset ({ex})")
+        continue
+      ok = (got is None and v is None) or (got is not None and v is not None and got == v and isinstance(got, Fraction))
+      ctx.check(ok, rule, key, ctx.where(fs.module, fs.node), "interpreted: stored and returned as given",
+                f"interpreted, {setter}({v!r}) followed by {getter}() gives {got!r}: the offset a reader computed exactly is altered in the model "
+                "(a time that is not on the rounding grid moves; the exact instant is no longer a significant time)")
+      n += 1
   return n
